@@ -758,3 +758,77 @@ impl MemBalancerTrigger {
         self.current_heap_pages.store(new_heap, Ordering::Relaxed);
     }
 }
+
+/// Verification hooks (C38): constructors and accessors for the crate-private trigger policies.
+/// Add-only; compiled with the cargo feature `mmtk_verif` only.
+#[cfg(feature = "mmtk_verif")]
+pub(crate) mod verif_hooks {
+    use super::*;
+
+    /// `MemBalancerTrigger::new`.
+    pub fn membalancer_new(min_heap_pages: usize, max_heap_pages: usize) -> MemBalancerTrigger {
+        MemBalancerTrigger::new(min_heap_pages, max_heap_pages)
+    }
+
+    /// A `FixedHeapSizeTrigger` as `GCTrigger::new` builds it.
+    pub fn fixed_new(total_pages: usize) -> FixedHeapSizeTrigger {
+        FixedHeapSizeTrigger { total_pages }
+    }
+
+    /// The eight `f64` statistics consumed by `compute_new_heap_limit`, in declaration order:
+    /// `allocation_pages_prev, allocation_time_prev, collection_pages_prev, collection_time_prev`
+    /// (each optional), `allocation_pages, allocation_time, collection_pages, collection_time`.
+    pub type StatsTuple = ([Option<f64>; 4], [f64; 4]);
+
+    /// Overwrite the statistics (timestamps and live-page bookkeeping are left alone).
+    pub fn membalancer_set_stats(t: &MemBalancerTrigger, s: StatsTuple) {
+        t.access_stats(|stats| {
+            stats.allocation_pages_prev = s.0[0];
+            stats.allocation_time_prev = s.0[1];
+            stats.collection_pages_prev = s.0[2];
+            stats.collection_time_prev = s.0[3];
+            stats.allocation_pages = s.1[0];
+            stats.allocation_time = s.1[1];
+            stats.collection_pages = s.1[2];
+            stats.collection_time = s.1[3];
+        });
+    }
+
+    /// Read the statistics back.
+    pub fn membalancer_get_stats(t: &MemBalancerTrigger) -> StatsTuple {
+        let mut out = ([None; 4], [0f64; 4]);
+        t.access_stats(|stats| {
+            out = (
+                [
+                    stats.allocation_pages_prev,
+                    stats.allocation_time_prev,
+                    stats.collection_pages_prev,
+                    stats.collection_time_prev,
+                ],
+                [
+                    stats.allocation_pages,
+                    stats.allocation_time,
+                    stats.collection_pages,
+                    stats.collection_time,
+                ],
+            );
+        });
+        out
+    }
+
+    /// `compute_new_heap_limit(live, extra_reserve, stats)` on the trigger's own statistics,
+    /// exactly as `on_gc_end` calls it.
+    pub fn membalancer_compute(t: &MemBalancerTrigger, live: usize, extra_reserve: usize) {
+        t.access_stats(|stats| t.compute_new_heap_limit(live, extra_reserve, stats));
+    }
+
+    /// `(min_heap_pages, max_heap_pages, current_heap_pages, pending_pages)`.
+    pub fn membalancer_fields(t: &MemBalancerTrigger) -> (usize, usize, usize, usize) {
+        (
+            t.min_heap_pages,
+            t.max_heap_pages,
+            t.current_heap_pages.load(Ordering::SeqCst),
+            t.pending_pages.load(Ordering::SeqCst),
+        )
+    }
+}
